@@ -34,6 +34,10 @@ def setup_impl_path():
 			sys.path.remove(path)
 		sys.path.insert(0, path)
 	sys.dont_write_bytecode = True
+	try:
+		import yaml  # noqa: F401  pylint: disable=unused-import,import-outside-toplevel
+	except ImportError:
+		sys.path.append(str(VERIF / 'harness' / 'pydeps_stub'))
 
 
 def impl_env():
